@@ -42,7 +42,7 @@ def gen_base(rng, tier, index):
         # fork server or spawned (their OS parent is not the process that created them)
         gap = 3.6 if tier == "quick" else rng.choice([3.6, 6.5, 11.0])
         return {"pool": "factory" if index % 80 >= 40 else "functor", "workers": 2, "wq": 1.0, "rq": None, "quota": 2 if index % 80 >= 40 else None,
-                "no_sweep": True, "limit_factor": 3, "start": "forkserver" if index % 3 else "spawn",
+                "no_sweep": True, "limit_factor": 3, "start": "forkserver" if index % 3 == 0 else "spawn",
                 "calls": [{"ordered": index % 2 == 0, "n": 4, "chunk": 1, "form": "slow", "slow": {"before": {"2": gap}, "stop": gap}}]}
     workers = rng.choice([1, 2, 2, 3, 4])
     chunk = rng.choice([1, 1, 2, 3, 4])
